@@ -286,14 +286,6 @@ def parse_mfl(text: str, defaults=True):
 # algebra on spaces
 
 
-def union(a, b, skip=('ALLOMETRY',)):
-    return apply_defaults({c: (a[c] | b[c]) if c not in skip else frozenset() for c in CATEGORIES})
-
-
-def difference(a, b, skip=('ALLOMETRY',)):
-    return apply_defaults({c: (a[c] - b[c]) if c not in skip else frozenset() for c in CATEGORIES})
-
-
 def differing_categories(a, b, skip=('ALLOMETRY',)):
     return [c for c in CATEGORIES if c not in skip and a[c] != b[c]]
 
